@@ -302,6 +302,7 @@ class World:
     paths (absolute paths are recorded inside manifests, snapshots and the config)."""
     def __init__(self, kind, sb, facts, info):
         self.kind = kind; self.sb = sb; self.facts = dict(facts); self.info = dict(info)
+        self.unpriv = False; self.extra_env = {}
         self.pristine = sb.root + '.pristine'
         self._freeze()
     def _freeze(self):
@@ -357,9 +358,11 @@ class World:
         if json_mode: argv.append('--json')
         if yes: argv.append('--yes')
         if dry: argv.append('--dry-run')
-        env = {'EDITOR': ''}
+        env = self.sb.env({'EDITOR': ''})
+        env.update(self.extra_env or {})
         if extra_env: env.update(extra_env)
-        p = self.sb.cli(argv, input=stdin, extra_env=env)
+        cmd = (list(UNPRIV) if self.unpriv else []) + [AGENTPACK_BIN] + argv
+        p = subprocess.run(cmd, cwd=self.sb.project, env=env, input=stdin, stdout=subprocess.PIPE, stderr=subprocess.PIPE, timeout=180)
         out = p.stdout.decode('utf-8', 'replace')
         doc = None
         if json_mode:
@@ -367,7 +370,9 @@ class World:
             except Exception: doc = None
         return p.returncode, doc, out, p.stderr.decode('utf-8', 'replace')
 
-WORLD_KINDS = ['empty', 'fresh', 'bootstrapped', 'deployed', 'pending', 'pending_dirty', 'nogit', 'nomanifest', 'gitmodule']
+UNPRIV = ['setpriv', '--reuid=65534', '--regid=65534', '--clear-groups']
+
+WORLD_KINDS = ['empty', 'fresh', 'adopt', 'bootstrapped', 'deployed', 'pending', 'pending_dirty', 'nogit', 'nomanifest', 'gitmodule']
 
 def _ok(w_or_sb, args, what, stdin=None):
     sb = w_or_sb
@@ -438,9 +443,13 @@ def build_world(kind, tag='w', root_suffix=None):
     info['branch'] = branch; info['remote'] = remote
     facts.update(pre_ok=True, cfg_exists=True, git_repo=True, has_creates=True)
 
-    if kind == 'fresh':
+    if kind in ('fresh', 'adopt'):
         # nothing deployed, no lockfile: plan = all creates, every desired output missing
         facts.update(plan_nonempty=True, boot_nonempty=True, missing_outputs=True, manifest_missing=True, healthy=True)
+        if kind == 'adopt':
+            # a user-owned file sits where a desired output goes: the plan has an adopt_update
+            W.write(os.path.join(sb.home, '.codex', 'AGENTS.md'), '# my own global instructions\n')
+            W.write(os.path.join(sb.home, '.claude', 'commands', 'hello.md'), 'my own command\n')
         return World(kind, sb, facts, info)
 
     if kind == 'gitmodule':
@@ -855,9 +864,11 @@ class Runner:
     def back_to_base(self, after):
         if after is not None:
             self.w.restore(self.base, after)
+            if self.w.unpriv: _chown_tree(self.w.sb.root)
             chk = self.w.snapshot()
             if snap_diff(self.base, chk) or any(self.base.raw_index.get(p) != chk.raw_index.get(p) for p in self.base.raw_index):
                 self.w.reset(); self.resets += 1
+                if self.w.unpriv: _chown_tree(self.w.sb.root)
                 chk = self.w.snapshot()
                 d = snap_diff(self.base, chk)
                 if d:
@@ -942,7 +953,6 @@ def check_mcp_result(msg, gen, expect_id):
 
 # --------------------------------------------------------------------------- failure-class worlds (C10)
 
-UNPRIV = ['setpriv', '--reuid=65534', '--regid=65534', '--clear-groups']
 
 def _chown_tree(root, uid=65534, gid=65534):
     for dp, dns, fns in os.walk(root):
@@ -958,14 +968,15 @@ FAILURE_KINDS = ['cfg_invalid_yaml', 'cfg_no_default_profile', 'cfg_dup_module',
                  'cfg_cursor_user_scope', 'lock_invalid', 'lock_unsupported', 'conflict', 'skill_bad_frontmatter', 'module_source_missing',
                  'overlay_baseline_missing', 'overlay_conflict', 'overlay_patch_fail', 'overlay_mixed',
                  'ro_target', 'ro_repo', 'ro_state', 'target_is_file', 'policy_violation', 'policy_cfg_invalid', 'policy_cfg_unsupported',
-                 'policy_pack_missing', 'git_detached', 'no_remote', 'no_git_binary', 'snapshot_corrupt', 'events_garbage']
+                 'policy_pack_missing', 'git_detached', 'no_remote', 'no_git_binary', 'snapshot_corrupt', 'events_garbage',
+                 'import_conflict', 'path_too_long']
 
 def build_failure_world(kind, tag='f'):
     """A world in which a given failure class is provoked.  Built on the 'deployed' / 'pending' world."""
     base = 'pending' if kind.startswith('overlay_') or kind in ('git_detached', 'no_remote', 'no_git_binary', 'ro_target', 'ro_repo', 'ro_state', 'target_is_file') else 'deployed'
     w = build_world(base, tag + '-' + kind)
     sb = w.sb
-    w.kind = kind; w.extra_env = {}; w.unpriv = False
+    w.kind = kind
     cfgp = os.path.join(sb.repo, 'agentpack.yaml')
     man = json.load(open(cfgp))
     try:
@@ -1058,6 +1069,23 @@ def build_failure_world(kind, tag='f'):
         elif kind == 'snapshot_corrupt':
             for sid in w.info['snapshots'][:1]:
                 W.write(os.path.join(sb.aphome, 'state', 'snapshots', sid + '.json'), '{"garbage": tru')
+        elif kind == 'import_conflict':
+            # the destination of the importable user prompt already exists inside the config repo
+            rc, doc, out, err = w.cli(['import'])
+            if not doc or not doc.get('ok'):
+                raise InfraError('import dry run failed: ' + out[:300])
+            n = 0
+            for it in doc['data']['plan']:
+                if it.get('op') == 'create':
+                    W.write(it['dest_path'] if not it['dest_path'].endswith(os.sep) else os.path.join(it['dest_path'], 'x'), 'already here\n'); n += 1
+            if n == 0:
+                raise InfraError('import_conflict world: nothing importable')
+        elif kind == 'path_too_long':
+            long_name = 'x' * 300 + '.md'
+            W.write(os.path.join(sb.repo, 'modules/long', 'short.md'), open(os.path.join(sb.repo, 'modules/claude-commands/hello.md')).read())
+            man['modules'].append({'id': 'skill:' + 'y' * 300, 'type': 'skill', 'tags': ['base'], 'targets': ['codex'],
+                                   'source': {'local_path': {'path': 'modules/skills/helper'}}})
+            W.write_config(sb.repo, man)
         elif kind == 'events_garbage':
             W.write(os.path.join(sb.aphome, 'state', 'logs', 'events.jsonl'), '{"schema_version":1,\nnot json at all\n\xff\xfe\n'.encode('latin-1'))
         else:
@@ -1079,3 +1107,123 @@ def world_cli(w, argv, stdin=None):
     except Exception:
         doc = None
     return p.returncode, doc, out, p.stderr.decode('utf-8', 'replace')
+
+# --------------------------------------------------------------------------- generated histories
+
+HISTORY_OPS = ['edit_module', 'user_edit_output', 'delete_output', 'deploy', 'overlay_edit', 'remove_manifest',
+               'rollback', 'bootstrap', 'dirty', 'record', 'restore', 'rebase', 'lock']
+
+def _deployed_files(w):
+    out = []
+    for base in (os.path.join(w.sb.home, '.codex'), os.path.join(w.sb.home, '.claude'), os.path.join(w.sb.project, '.codex'),
+                 os.path.join(w.sb.project, '.claude'), w.sb.project):
+        if not os.path.isdir(base): continue
+        for dp, dns, fns in os.walk(base):
+            if '.git' in dp.split(os.sep): continue
+            for fn in fns:
+                if fn.startswith('.agentpack.manifest'): continue
+                if base == w.sb.project and dp != base: continue
+                if base == w.sb.project and fn not in ('AGENTS.md',): continue
+                out.append(os.path.join(dp, fn))
+    return sorted(set(out))
+
+def perturb(w, rng, steps):
+    """Apply a random history to a built world (then re-freeze it).  Returns the list of steps taken.
+    Steps go through the real CLI where the user would use it; a step that fails is recorded and skipped."""
+    sb = w.sb
+    hist = []
+    def cli(args, stdin=None):
+        p = sb.cli(list(args) + ['--json', '--yes'], input=stdin, extra_env={'EDITOR': ''})
+        try: return p.returncode, json.loads(p.stdout.decode('utf-8', 'replace'))
+        except Exception: return p.returncode, None
+    has_git = os.path.isdir(os.path.join(sb.repo, '.git'))
+    for _ in range(steps):
+        op = rng.choice(HISTORY_OPS)
+        note = ''
+        try:
+            if op == 'edit_module':
+                cands = [os.path.join(sb.repo, 'modules/prompts/draftpr.md'), os.path.join(sb.repo, 'modules/instructions/base/AGENTS.md'),
+                         os.path.join(sb.repo, 'modules/skills/helper/notes.txt'), os.path.join(sb.repo, 'modules/claude-commands/hello.md')]
+                f = rng.choice([c for c in cands if os.path.exists(c)])
+                with open(f, 'a') as fh: fh.write('\nhistory edit %d\n' % rng.randrange(1000))
+                if has_git and rng.random() < 0.8: _commit_all(sb, 'edit')
+                note = os.path.relpath(f, sb.repo)
+            elif op in ('user_edit_output', 'delete_output'):
+                files = _deployed_files(w)
+                if not files: note = 'nothing deployed'
+                else:
+                    f = rng.choice(files)
+                    if op == 'delete_output': os.remove(f)
+                    else:
+                        with open(f, 'a') as fh: fh.write('\nuser edit %d\n' % rng.randrange(1000))
+                    note = os.path.relpath(f, sb.root)
+            elif op == 'deploy':
+                rc, d = cli(['deploy', '--apply', '--adopt'] + (['--target', rng.choice(['codex', 'claude_code'])] if rng.random() < 0.3 else []))
+                note = 'rc=%s' % rc
+                if d and d.get('ok') and d['data'].get('snapshot_id'): w.info.setdefault('snapshots', []).append(d['data']['snapshot_id'])
+            elif op == 'overlay_edit':
+                mod = rng.choice(['instructions:base', 'skill:helper', 'prompt:draftpr'])
+                kind = rng.choice(['dir', 'dir', 'patch'])
+                rc, d = cli(['overlay', 'edit', mod, '--kind', kind] + (['--scope', 'machine'] if rng.random() < 0.2 else []))
+                note = '%s %s rc=%s' % (mod, kind, rc)
+                if d and d.get('ok'):
+                    od = d['data']['overlay_dir']
+                    if kind == 'dir':
+                        for fn in sorted(os.listdir(od)):
+                            p = os.path.join(od, fn)
+                            if os.path.isfile(p):
+                                with open(p, 'a') as fh: fh.write('\noverlay edit %d\n' % rng.randrange(1000))
+                                break
+                    w.info['overlay_module'] = mod; w.info['overlay_dir'] = od
+                    if has_git: _commit_all(sb, 'overlay')
+            elif op == 'remove_manifest':
+                ms = [os.path.join(dp, fn) for dp, dns, fns in os.walk(sb.root) for fn in fns
+                      if fn.startswith('.agentpack.manifest.') and 'aphome' not in os.path.relpath(dp, sb.root).split(os.sep)[:1] and '.pristine' not in dp]
+                if ms:
+                    m = rng.choice(sorted(ms)); os.remove(m); note = os.path.relpath(m, sb.root)
+            elif op == 'rollback':
+                snaps = w.info.get('snapshots') or []
+                if snaps:
+                    sid = rng.choice(snaps); rc, d = cli(['rollback', '--to', sid]); note = 'rc=%s' % rc
+            elif op == 'bootstrap':
+                rc, d = cli(['bootstrap', '--scope', rng.choice(['user', 'project', 'both'])]); note = 'rc=%s' % rc
+                if d and d.get('ok') and d['data'].get('snapshot_id'): w.info.setdefault('snapshots', []).append(d['data']['snapshot_id'])
+            elif op == 'dirty':
+                W.write(os.path.join(sb.repo, 'scratch-%d.txt' % rng.randrange(100)), 'uncommitted\n')
+            elif op == 'record':
+                rc, d = cli(['record'], stdin=RECORD_EVENT.encode()); note = 'rc=%s' % rc
+            elif op == 'restore':
+                rc, d = cli(['evolve', 'restore']); note = 'rc=%s' % rc
+            elif op == 'rebase':
+                rc, d = cli(['overlay', 'rebase', w.info.get('overlay_module') or 'instructions:base']); note = 'rc=%s' % rc
+                if has_git and rc == 0: _commit_all(sb, 'rebase')
+            elif op == 'lock':
+                rc, d = cli(['lock']); note = 'rc=%s' % rc
+        except Exception as e:
+            note = 'step failed: %s' % (repr(e)[:120],)
+        hist.append({'op': op, 'note': note})
+    w.info['history'] = hist
+    w._freeze()
+    return hist
+
+# --------------------------------------------------------------------------- reporting helper
+
+def cap_violations(viols, per_key=3, total=60):
+    """Keep at most `per_key` violations per (stream, world, command) and `total` overall: one broken
+    guard fails in every flag combination, and one replay per combination adds nothing.
+    viols: list of tuples whose first two items are (what, case).  Returns (kept, dropped_count)."""
+    seen = {}; kept = []; dropped = 0
+    for v in viols:
+        case = v[1]
+        inv = case.get('invocation') or {}
+        cmd = inv.get('command') or case.get('tool')
+        if cmd is None:
+            argv = [a for a in case.get('argv', []) if not a.startswith('-')]
+            cmd = ' '.join(argv[:2])
+        key = (case.get('stream'), case.get('world'), cmd)
+        n = seen.get(key, 0)
+        if n < per_key and len(kept) < total:
+            kept.append(v); seen[key] = n + 1
+        else:
+            dropped += 1
+    return kept, dropped
